@@ -125,7 +125,7 @@ theorem fwdFeed_static (chunks : List Bytes) : ∀ (s : Insp) (p : Bytes), s.fmt
 
 /-- **retained_is_stream_slice (static formats, from the general theorem)** — non-vacuity of the
     proviso: for the eight formats with fixed regions it holds for every stream and chunking -/
-theorem retained_is_stream_slice_static' (f : Fmt) (hf : f.static = true) (s0 : Insp)
+theorem retained_is_stream_slice_static_general (f : Fmt) (hf : f.static = true) (s0 : Insp)
     (h0 : Insp.init f = some s0) (chunks : List Bytes) (hok : (feed s0 chunks).2 = none) :
     ∀ x ∈ (feed s0 chunks).1.regions,
       x.2.data = sliceOf chunks.flatten x.2.offset x.2.data.length := by
